@@ -18,3 +18,11 @@ add('C17', 'Hypothesis-generated function families with analytically known roots
     'closed-form implicit-function value. Sampling; functions outside the families are not covered.',
     'End values within 64 ulp of the added terms are treated as sign-ambiguous (either outcome accepted); function values at the '
     'ends limited to 1e-20..1e20; x_tol >= 16 ulp of the bracket scale; non-NaN required only when max_iters >= 4*log2(width/x_tol)+10.')
+add('C12', 'Hypothesis-generated spectrum/orientation/magnitude classes, single and batched execution; reconstruction, identity, 40-digit Frechet-derivative and exact-rational oracles',
+    'Generated search over spectrum classes (distinct, nearly/exactly repeated, rank deficient, traceless), orientation classes and forty orders '
+    'of magnitude, each evaluated as a single compiled call and inside jit(vmap). Oracles: V L V^T = A, V^T V = I, ordering, numpy eigvalsh; '
+    'sqrt/exp/log/pow identities and rotation equivariance; JVP rules against a 40-digit mpmath Daleckii-Krein Frechet derivative; det(A+I)-1 against '
+    'exact rational arithmetic; inverse / polar identities; dense sqrtm/logm against scipy. Sampling, not exhaustive.',
+    'mpmath and numpy/scipy are trusted references; tolerances 1e-10 (identities, times condition number), 1e-8 (derivatives), 1e-7 for logm_iss '
+    '(its stated accuracy in the upstream tests); tensors with internal dynamic range above 1e100 and subnormal magnitudes are excluded; '
+    'known finding D1 covers only failures of compiled evaluation that the op-by-op evaluation of the same routine does not show.')
